@@ -960,7 +960,35 @@ func execCDag(x *fw.Ctx, c Case) {
 	ready.Wait()
 	nRegistered.Store(int64(len(plan)))
 	close(begin)
-	wg.Wait()
+	// The goroutines make a few dozen trivial calls. If they have not all
+	// returned after 20 s and a further call from a new goroutine does not
+	// return within 5 s either, dispatch on this generic function is blocked
+	// for good (a leaked lock); the goroutines are abandoned.
+	done := make(chan struct{})
+	go func() { wg.Wait(); close(done) }()
+	select {
+	case <-done:
+	case <-time.After(20 * time.Second):
+		probe := make(chan struct{})
+		go func() {
+			defer close(probe)
+			obj := pool["clos"][4][1]
+			ps := world.NewScope()
+			ps.Let(slip.Symbol("x"), obj)
+			ps.Let(slip.Symbol("y"), obj)
+			_ = sl.Catch(func() { slip.ReadString("("+g.name+" x"+map[int]string{1: "", 2: " y"}[c.Ar]+")", ps).Eval(ps, nil) })
+		}()
+		select {
+		case <-done:
+		case <-probe:
+			<-done
+		case <-time.After(5 * time.Second):
+			nRegistered.Store(0)
+			x.Fail("cdag dispatch-deadlock", "class definitions [%s] while %d goroutines call %s: the calls never return and a further call blocks too "+
+				"(every caller waits for the generic function's lock, which an earlier call did not release)", strings.Join(c.Thr[0], " "), len(plan)-1, g.name)
+			return
+		}
+	}
 	nRegistered.Store(0)
 	for k := range traces {
 		delete(traces, k)
